@@ -360,7 +360,8 @@ PROPS = {
     "C06": {
         "level": "proof",
         "lean_modules": ["SqlizeModel.Props.C06"],
-        "theorems": ["Sqlize.C06.table_name", "Sqlize.C06.ignored_field", "Sqlize.C06.embedded_last", "Sqlize.C06.pk_first"],
+        "theorems": ["Sqlize.C06.table_name", "Sqlize.C06.ignored_field", "Sqlize.C06.embedded_last", "Sqlize.C06.pk_first", "Sqlize.C06.column_name", "Sqlize.C06.default_name", "Sqlize.C06.primary_key_iff", "Sqlize.C06.not_null_iff", "Sqlize.C06.null_iff",
+                     "Sqlize.C06.auto_increment_iff", "Sqlize.C06.foreign_key_only_from_its_items", "Sqlize.Builder.tagItem_name_eq"],
         "suites": [{"name": "struct", "kind": "struct"}],
         "corr_points": ["AddTable", "FromObjects-dump", "FromObjects-hash"],
         "rule": STRUCT_RULE,
@@ -369,7 +370,10 @@ PROPS = {
                                                "Impl/Atoms.lean: how the MySQL parser canonicalises type spellings (validated by the same runs)"],
         "assumptions": ["exported ASCII field names", "supported Go types (no nil pointers / slices without a type tag)", "at least one column"],
         "explanation": "Proved of the builder model: table naming, ignored fields, own-then-embedded order, primary key first with the other lines in "
-                       "order. The per-field clause is decided by exact DDL text correspondence plus the expected-schema oracle on generated structs.",
+                       "order; of the tag switch, for every tag: the column name is the last column: item (or the prefixed snake_case field name), and each option flag "
+                       "(primary key, not null, null, auto increment) is set iff one of the tag's items is that key in either spelling; a foreign-key attribute only "
+                       "from its own items. The rest of the per-field clause (type mapping, one line per field) is decided by exact DDL text correspondence plus the "
+                       "expected-schema oracle on generated structs.",
     },
     "C10": {
         "level": "proof",
